@@ -309,9 +309,14 @@ func c02(c *Ctx) {
 			// success exits: the validator's verdict, or (receipts) the empty shortcut
 			shortcut := func(fs []core.Fact) bool { return false }
 			if k == 0x02 {
-				emptyRoot := bytesEqualFact(func(v ssa.Value) bool { return derivesFromHeaderField(v, "ReceiptHash") && core.Derives(v, func(x ssa.Value) bool { return x == hdr }, core.DeriveOpts{ThroughCalls: true}) },
+				emptyRoot := bytesEqualFact(func(v ssa.Value) bool {
+					return derivesFromHeaderField(v, "ReceiptHash") && core.Derives(v, func(x ssa.Value) bool { return x == hdr }, core.DeriveOpts{ThroughCalls: true})
+				},
 					func(v ssa.Value) bool {
-						return core.Derives(v, func(x ssa.Value) bool { g, ok := x.(*ssa.Global); return ok && strings.Contains(strings.ToLower(g.Name()), "empty") }, core.DeriveOpts{})
+						return core.Derives(v, func(x ssa.Value) bool {
+							g, ok := x.(*ssa.Global)
+							return ok && strings.Contains(strings.ToLower(g.Name()), "empty")
+						}, core.DeriveOpts{})
 					})
 				noContent := core.AnyFact(func(f core.Fact) bool {
 					return core.CmpFact(f, func(op token.Token, x, y ssa.Value) bool {
